@@ -22,6 +22,8 @@ type Opts struct {
 	// `_` references written inside an edge's map: the compiler then creates a phantom object named after the edge
 	// (reported by the C09 Spec); outside the modelled fragment
 	EdgeMapUnderscore bool
+	// names the formatter spells differently from the source (see specialNames)
+	SpecialNames bool
 }
 
 type edgeRec struct {
@@ -49,6 +51,12 @@ var shapes = []string{"rectangle", "square", "circle", "oval", "diamond", "hexag
 var colors = []string{"red", "blue", "green", "orange", `"#ff0000"`, "black"}
 var arrows = []string{"->", "->", "->", "->", "<-", "--", "<->"}
 
+// names that the formatter quotes although they may be written unquoted (trailing hyphen), or that need quotes for another
+// reason than a plain special character (dots, double hyphen, surrounding blanks, keyword case variants); an inner hyphen or
+// blank needs no quotes.  Once picked, such a name is one of the program's few names, so it is referenced many times
+// (declared, used as container, scope and connection endpoint).
+var specialNames = []string{"tier-", "Tier-", "a-b", "x y", `"a.b"`, `" sp"`, `"x "`, `"n--m"`, `"Shape"`, `"Style"`, "q-"}
+
 func New(r *rand.Rand, o Opts) *G {
 	g := &G{R: r, O: o, Feat: map[string]int{}}
 	k := 2 + r.Intn(5)
@@ -59,6 +67,10 @@ func New(r *rand.Rand, o Opts) *G {
 		if r.Intn(3) == 0 { // case twin
 			g.names = append(g.names, strings.ToUpper(n[:1])+n[1:])
 		}
+	}
+	if o.SpecialNames && r.Intn(3) == 0 {
+		g.names = append(g.names, specialNames[r.Intn(len(specialNames))])
+		g.Feat["special-name"]++
 	}
 	return g
 }
@@ -71,7 +83,7 @@ func (g *G) name() string {
 		return quotedKw[g.R.Intn(len(quotedKw))]
 	}
 	n := g.names[g.R.Intn(len(g.names))]
-	if g.R.Intn(30) == 0 {
+	if g.R.Intn(30) == 0 && !strings.HasPrefix(n, `"`) {
 		g.feat("quoted-plain-name")
 		return `"` + n + `"`
 	}
@@ -134,7 +146,11 @@ func (g *G) styleKV() (string, string) {
 	}
 }
 
+// a hyphen at the end of an unquoted key swallows the next character in the parser: keep a blank after it
+var hyphenFix = strings.NewReplacer("-.", "- .", "-:", "- :", "-)", "- )")
+
 func (g *G) line(depth int, s string) {
+	s = hyphenFix.Replace(s)
 	g.b.WriteString(strings.Repeat("  ", depth))
 	g.b.WriteString(s)
 	g.b.WriteByte('\n')
